@@ -392,3 +392,32 @@ def c10_outcome(text, flags):
 def c10_seed_failures():
     from props.c10 import seed_layer
     return seed_layer()[0]
+
+
+def c19_history(history):
+    """Replay one call history in this (fresh) interpreter against cold answers computed in further fresh interpreters."""
+    import shutil
+    import tempfile
+    from props import c19
+    base = tempfile.mkdtemp(prefix='wcverif_c19r_')
+    try:
+        cold = {}
+        for st, cid in {tuple(x) for x in history}:
+            d = base + f'/cold_{st}_{cid}'
+            import os
+            os.makedirs(d)
+            k, v = c19.cold_worker((d, st, cid))
+            cold[k] = v
+        hist = [tuple(x) for x in history]
+        wd = base + '/w'
+        os.makedirs(wd)
+        bad, _n = c19.history_worker((wd, [hist], cold))
+        return bad == []
+    finally:
+        shutil.rmtree(base, ignore_errors=True)
+
+
+def c19_algebra():
+    from props import c19
+    from engine import common
+    return c19.algebra(common.Ctx('C19'))[0]
